@@ -25,6 +25,9 @@ var libShapes = []string{
 	`$join(X)`, `$sum(X)`, `$max(X)`, `$zip(X, Y)`, `$merge(X)`, `$spread(X)`, `$keys(X)`, `$lookup(X, "a")`, `$each(X, function($v){$v})`, `$sift(X, function($v){true})`, `$shuffle(X)`, `$flatten(X)`,
 	`$filter(X, function($v){true})`, `$reduce(X, function($a,$b){$a & $b})`, `$single(X, function($v){true})`, `X ? 1 : 2`, `X and Y`, `X < Y`, `X + 1`, `X .. 2`, `[X .. Y]`, `X ~> $count`, `X ~> $string ~> $length`,
 	`$map(X, function($v){$v}){"k": $}`, `(X)[0]{"k": $}`, `X@$v.$v`, `X#$i.$i`, `$v := X`, `($v := X; $v{"k": $})`, `($v := X; $v[0])`, `function($x)<a:a>{$x}(X)`, `function($x)<a<s>:a>{$x}(X)`, `function($x)<x+>{$x}(X, Y)`,
+	// transformations whose update refers to the object that is being updated
+	`{"a": X} ~> |$|{"self": [$]}|`, `{"a": X} ~> |$|{"self": [[$], {"in": $}]}|`, `{"a": X} ~> |$|{"s": [$.a, $]}|`, `{"a": {"b": X}} ~> |a|{"up": [$$, $]}|`, `{"a": X} ~> |$|{"self": $append([], $)}|`,
+	`{"a": X} ~> |$|{"self": $reverse([$, 1])}|`, `{"a": X} ~> |$|{"self": $ ~> $map(function($v){$v})}|`, `{"a": X} ~> |$|{"self": $}, "a"|`, `$ ~> |$|{"self": [$], "x": X}|`, `{"a": X} ~> |$|{"self": {"k": [$]}}|`,
 	`X{"k": $}{"j": $}`, `[X]{"k": $}`, `[X].$`, `$$.(X)`, `$$.(X){"k": $}`, `X.($ & "!")`, `X[$count($) = 1]`, `$sort(X, function($a,$b){$a > $b})`, `$replace("abc", "b", X[0])`, `$join(X, X[0])`, `$substring(X[0], 0, 1)`,
 	`$formatNumber(1, X[0])`, `$pad(X[0], 3)`, `$contains(X[0], Y[0])`, `$number(X)`, `$length(X)`, `$uppercase(X)`, `$base64encode(X)`, `$eval("1", X)`, `$toMillis(X)`, `$fromMillis(X)`, `$abs(X)`, `$power(X, 2)`,
 }
